@@ -323,7 +323,7 @@ def gen_history(rng: random.Random, tier: str) -> dict:
     ops: list = []
     paths = ["a.zanj", "b.zanj", "c.zanj"]
     slots: list = []
-    n_ops = rng.randint(6, 14)
+    n_ops = rng.randint(45, 70) if rng.random() < 0.03 else rng.randint(6, 14)  # a few long histories
     thresholds = [None, 0, 1, 2, 3, 5, 8, 100]
     if rng.random() < 0.7:
         ops.append(["threshold", rng.choice(thresholds)])
